@@ -913,6 +913,15 @@ func TestVerifC12(t *testing.T) {
 		if cs.Mut != nil {
 			c.runMutation(cs)
 		} else {
+			// the id-uniqueness oracle needs the other data shapes of the same
+			// transaction to have been seen first
+			for d := range c.g.data {
+				if d != cs.Idx[dData] {
+					o := append([]int(nil), cs.Idx...)
+					o[dData] = d
+					c.runCase(c12Case{Idx: o, Pres: 0, Tier: cs.Tier})
+				}
+			}
 			c.runCase(cs)
 		}
 		r.Finish(false)
